@@ -25,6 +25,7 @@ import (
 	"time"
 
 	"go.starlark.net/starlark"
+	"go.starlark.net/syntax"
 
 	"verifharness/internal/graphs"
 	"verifharness/internal/hx"
@@ -682,10 +683,84 @@ func runGraph(seed uint64, i int, maxProbes int) GraphOut {
 	return out
 }
 
+// ------------------------------------------------------------------- nested
+//
+// A module that finishes while a function of ANOTHER module is still running:
+// a built-in called by `outer` (module A) executes module B, passing it outer's
+// inner function f; B binds f to a global and finishes (its epilogue freezes f
+// and what f's captured variable holds).  Then outer goes on and may re-assign
+// the captured variable.  Afterwards everything reachable from B's global must
+// still be frozen.
+
+type NestedOut struct {
+	Kind    string `json:"kind"`
+	Variant int    `json:"variant"`
+	Rebind  bool   `json:"rebind"`
+	KeepInA bool   `json:"keep_in_a"`
+	Value   string `json:"value"`
+	SrcA    string `json:"src_a"`
+	SrcB    string `json:"src_b"`
+	ErrA    string `json:"err_a,omitempty"`
+	Mutable bool   `json:"mutable"` // the value B's global reaches through the closure accepted a mutation
+	Seen    string `json:"seen"`
+}
+
+func runNested(variant int) NestedOut {
+	o := NestedOut{Kind: "nested", Variant: variant, Rebind: variant&1 == 1, KeepInA: variant&2 == 2}
+	lit1, lit2 := "[1]", "[2]"
+	o.Value = "list"
+	if variant&4 == 4 {
+		lit1, lit2, o.Value = "{1: 1}", "{2: 2}", "dict"
+	}
+	o.SrcB = "g = f\n"
+	var bGlobals starlark.StringDict
+	runB := starlark.NewBuiltin("run_b", func(_ *starlark.Thread, _ *starlark.Builtin, args starlark.Tuple, _ []starlark.Tuple) (starlark.Value, error) {
+		g, err := starlark.ExecFileOptions(&syntax.FileOptions{}, &starlark.Thread{Name: "B"}, "b.star", o.SrcB, starlark.StringDict{"f": args[0]})
+		bGlobals = g
+		return starlark.None, err
+	})
+	var b strings.Builder
+	fmt.Fprintf(&b, "def outer():\n    x = %s\n    def f():\n        return x\n    run_b(f)\n", lit1)
+	if o.Rebind {
+		fmt.Fprintf(&b, "    x = %s\n", lit2)
+	}
+	b.WriteString("    return f\n")
+	if o.KeepInA {
+		b.WriteString("keep = outer()\n")
+	} else {
+		b.WriteString("outer()\n")
+	}
+	o.SrcA = b.String()
+	_, err := starlark.ExecFileOptions(&syntax.FileOptions{}, &starlark.Thread{Name: "A"}, "a.star", o.SrcA, starlark.StringDict{"run_b": runB})
+	if err != nil {
+		o.ErrA = err.Error()
+		return o
+	}
+	v, err := starlark.Call(&starlark.Thread{Name: "later"}, bGlobals["g"], nil, nil)
+	if err != nil {
+		o.ErrA = "calling B.g: " + err.Error()
+		return o
+	}
+	switch x := v.(type) {
+	case *starlark.List:
+		o.Mutable = x.Append(starlark.MakeInt(3)) == nil
+	case *starlark.Dict:
+		o.Mutable = x.SetKey(starlark.MakeInt(3), starlark.MakeInt(3)) == nil
+	}
+	o.Seen = v.String()
+	return o
+}
+
 func child(seed uint64, from, to, maxProbes int) {
 	debug.SetMaxStack(64 << 20) // a runaway Freeze recursion dies quickly
 	for i := from; i < to; i++ {
 		hx.Emit(runGraph(seed, i, maxProbes))
+		hx.Flush()
+	}
+	if from == 0 {
+		for v := 0; v < 8; v++ {
+			hx.Emit(runNested(v))
+		}
 		hx.Flush()
 	}
 }
